@@ -1,7 +1,7 @@
 /-
   C05 (work package c01multi) — combined damage given as a SET OF FLIPPED MODULES: flipping any function-pattern
   modules of the reference symbol, of which at most three lie in each copy of the format information and at most three in
-  the first-read copy of the version information, yields a `Damaged` matrix (Proofs/QRMultiComb.lean).
+  one of the two copies of the version information, yields a `Damaged` matrix (Proofs/QRMultiComb.lean).
   Ingredients: `natToBits` of an exclusive-or is the bitwise exclusive-or of the bit lists; the population count of a
   flag list; function-pattern cells and data cells are disjoint (`QRRef.mem_zigzag`).
 -/
@@ -78,13 +78,14 @@ theorem cells_flip_word (m : Matrix) (F : List (Nat × Nat)) (cs : List (Nat × 
 
 /-- **combined damage as module flips**: any set `F` of function-pattern modules of the reference symbol (format and
     version information, but also finder / timing / alignment patterns and the dark module) of which at most three lie
-    in each copy of the format information and at most three in the copy of the version information that `ReadVersion`
-    reads first (the other copy is unconstrained) -/
+    in each copy of the format information and at most three in AT LEAST ONE of the two copies of the version information
+    (the other copy is unconstrained) -/
 theorem damaged_of_flips (v : Nat) (h1 : 1 ≤ v) (h40 : v ≤ 40) (ec : QRRef.EC) (mask : Nat) (cw : List Nat)
     (F : List (Nat × Nat)) (hF : ∀ c ∈ F, QRRef.isFunction v c.1 c.2 = true)
     (hf1 : formatCoords1.countP (F.contains ·) ≤ 3)
     (hf2 : (formatCoords2 (17 + 4 * v)).countP (F.contains ·) ≤ 3)
-    (hv1 : 7 ≤ v → (versionCoords1 (17 + 4 * v)).countP (F.contains ·) ≤ 3) :
+    (hv : 7 ≤ v → (versionCoords1 (17 + 4 * v)).countP (F.contains ·) ≤ 3 ∨
+      (versionCoords2 (17 + 4 * v)).countP (F.contains ·) ≤ 3) :
     Damaged v ec mask cw (flipCells (sym v ec mask cw) F) := by
   have hdim : (sym v ec mask cw).dim = 17 + 4 * v := matrixOf_dim v ec mask cw
   have hco := coordsOK_of v h1 h40
@@ -118,13 +119,24 @@ theorem damaged_of_flips (v : Nat) (h1 : 1 ≤ v) (h40 : v ≤ 40) (ec : QRRef.E
     have := formatPos2_lt (17 + 4 * v) (15 - 1 - i) (by omega) (by have := List.mem_range.mp hi; omega)
     rw [hdim]; exact this
   · intro h7
-    have hv := hco.2.resolve_left (by omega)
-    apply cells_flip_word _ F (versionCoords1 (17 + 4 * v)) 18 _ (by rw [hv]; simp) (by omega) ?_
-      (version_cells1 v h1 h40 ec mask cw h7) 3 (hv1 h7)
-    intro c hc
-    rw [hv] at hc
-    obtain ⟨i, hi, rfl⟩ := List.mem_map.mp hc
-    have := versionPos2_lt (17 + 4 * v) (18 - 1 - i) (by omega) (by have := List.mem_range.mp hi; omega)
-    rw [hdim]; exact this
+    have hvc := hco.2.resolve_left (by omega)
+    rcases hv h7 with hv1 | hv2
+    · left
+      apply cells_flip_word _ F (versionCoords1 (17 + 4 * v)) 18 _ (by rw [hvc]; simp) (by omega) ?_
+        (version_cells1 v h1 h40 ec mask cw h7) 3 hv1
+      intro c hc
+      rw [hvc] at hc
+      obtain ⟨i, hi, rfl⟩ := List.mem_map.mp hc
+      have := versionPos2_lt (17 + 4 * v) (18 - 1 - i) (by omega) (by have := List.mem_range.mp hi; omega)
+      rw [hdim]; exact this
+    · right
+      have hvc2 := versionCoords2_eq v h7 h40
+      apply cells_flip_word _ F (versionCoords2 (17 + 4 * v)) 18 _ (by rw [hvc2]; simp) (by omega) ?_
+        (version_cells2 v h7 h40 ec mask cw) 3 hv2
+      intro c hc
+      rw [hvc2] at hc
+      obtain ⟨i, hi, rfl⟩ := List.mem_map.mp hc
+      have := versionPos1_lt (17 + 4 * v) (18 - 1 - i) (by omega) (by have := List.mem_range.mp hi; omega)
+      rw [hdim]; exact this
 
 end Gzx.QRComp
